@@ -47,6 +47,16 @@ CLAIMED = {
         note=PROOF_NOTE + "lint passes being severity-independent is structural in the model and validated by the same-findings comparison.",
         technique="Lean 4 theorems + regenerated lint/severity table + same-program-under-random-configurations correspondence + CLI runs",
         design="§4 C10"),
+    "C13": dict(
+        text="Lean 4: the modelled lints (scope analysis, undefined_variable, unused_variable, shadowing) are functions of the trivia-free tree in token space and provably cannot observe the layout (C13_layout_free, C13_tables_layout_free, C13_shift: parametricity, by rfl). Tied to the code and extended to every lint by twin runs: each program and two trivia-rewritten twins are linted by the real Checker under two libraries and compared in token space; this exposed eight layout dependencies now fixed in /repo.",
+        note=PROOF_NOTE + "PARTIAL by design: layout-independence of lints that are not modelled in Lean rests on the twin runs; documented exceptions (comments_count, filter comments) are not exercised.",
+        technique="Lean 4 parametricity theorem for the modelled lints + program/trivia-twin differential runs of the real Checker in token space",
+        design="§4 C13"),
+    "C14": dict(
+        text="Lean 4: every name-keyed operation of the Lua resolver specification is an equality test that an injective renaming preserves (lookup_rename, lookup_rename_fresh, declare_rename); the full renaming-simulation theorem over the scope model is pending. Checked on the real code by linting each program and a twin whose script-introduced spellings are injectively renamed to fresh names (a quarter longer than 32 bytes), compared in token space with names mapped back in messages.",
+        note=PROOF_NOTE + "PARTIAL: simulation theorem pending; only purely local spellings are renamed (the property's side conditions), special names never.",
+        technique="Lean 4 lemmas (lookup commutes with injective renaming) + program/renamed-twin differential runs of the real Checker",
+        design="§4 C14"),
     "C15": dict(
         text="Machine-checked proof (Lean 4) that the model of StandardLibrary::extend / base chains / `+` folds answers every key and lua_versions as the property states, for all libraries and chain lengths; the model is tied to the code by differential runs on generated pairs, chains and the shipped built-in chains.",
         note=PROOF_NOTE + "file-system resolution of library names and serde_yaml are outside the model.",
